@@ -426,6 +426,17 @@ theorem accOf_last (g : List (Option α)) : (accOf 3 g).agg = (vals g).getLast?.
     | none => simpa [accStep] using ih
     | some v => simp [accStep]
 
+/-- operator codes above 3 never touch `agg` -/
+theorem accOf_other (op : Int) (hop : 3 < op) (g : List (Option α)) : (accOf op g).agg = 0 := by
+  induction g using List.reverseRecOn with
+  | nil => simp [accOf, Acc.init]
+  | append_singleton g x ih =>
+    rw [accOf_concat]
+    have h1 : ¬ op ≤ 1 := by omega
+    have h2 : ¬ op = 2 := by omega
+    have h3 : ¬ op = 3 := by omega
+    cases x <;> simp [accStep, h1, h2, h3, ih]
+
 end anyc
 
 /-! ### closed forms of the per-group fold over an ordered field -/
